@@ -66,6 +66,7 @@ type Contracts struct {
 	Atomic    map[string]bool
 	Immutable map[string]bool
 	Consts    map[string]*CExpr
+	Axioms    []*Lemma
 	File      string
 }
 
@@ -83,16 +84,25 @@ var clauseKeywords = map[string]bool{
 }
 var topKeywords = map[string]bool{
 	"func": true, "pred": true, "spec": true, "lemma": true, "callback": true, "ghost": true,
-	"guard": true, "atomic": true, "immutable": true, "const": true, "end": true,
+	"guard": true, "atomic": true, "immutable": true, "const": true, "end": true, "axiom": true,
 }
 
-func loadContracts(path string) (*Contracts, error) {
+func newContracts() *Contracts {
+	return &Contracts{Funcs: map[string]*FuncContract{}, Specs: map[string]*SpecDef{}, Callbacks: map[string]*FuncContract{},
+		Guards: map[string][]string{}, Atomic: map[string]bool{}, Immutable: map[string]bool{}, Consts: map[string]*CExpr{}}
+}
+
+func loadContracts(c *Contracts, path string) error {
+	_, err := loadContractsInto(c, path)
+	return err
+}
+
+func loadContractsInto(c *Contracts, path string) (*Contracts, error) {
 	data, err := os.ReadFile(path)
 	if err != nil {
 		return nil, err
 	}
-	c := &Contracts{Funcs: map[string]*FuncContract{}, Specs: map[string]*SpecDef{}, Callbacks: map[string]*FuncContract{},
-		Guards: map[string][]string{}, Atomic: map[string]bool{}, Immutable: map[string]bool{}, Consts: map[string]*CExpr{}, File: path}
+	c.File = path
 	// gather logical lines
 	type ll struct {
 		text string
@@ -206,6 +216,13 @@ func loadContracts(path string) (*Contracts, error) {
 				return nil, err
 			}
 			c.Lemmas = append(c.Lemmas, &Lemma{Name: strings.TrimSpace(rest[:k]), Expr: e, Src: strings.TrimSpace(rest[k+1:]), Line: l.line})
+			cur = nil
+		case "axiom":
+			e, err := parse(rest)
+			if err != nil {
+				return nil, err
+			}
+			c.Axioms = append(c.Axioms, &Lemma{Expr: e, Src: rest, Line: l.line})
 			cur = nil
 		case "ghost":
 			f := strings.Fields(rest)
